@@ -165,11 +165,13 @@ impl BaseBindingsGenerator for TypeScriptBindingsGenerator {
                 &mut event_types,
             );
 
-            // Add event payload types to used_structs
-            for type_name in event_types {
-                if let Some(struct_info) = discovered_structs.get(&type_name) {
-                    used_structs.insert(type_name.clone(), struct_info.clone());
-                }
+            // Add event payload types to used_structs, together with the types their
+            // fields refer to (a payload's nested types are declared just like a parameter's)
+            for (type_name, struct_info) in self
+                .collector
+                .collect_types_with_dependencies(&event_types, discovered_structs)
+            {
+                used_structs.insert(type_name, struct_info);
             }
         }
 
